@@ -27,6 +27,7 @@ type Op struct {
 	Fn   int    `json:"fn,omitempty"`   // function / method index
 	Slot int    `json:"slot,omitempty"` // saved slot
 	Arg  int    `json:"arg,omitempty"`
+	Bad  int    `json:"bad,omitempty"` // load: version Bad, whose last package-level initialiser fails, is loaded first (and fails)
 }
 
 type History struct {
@@ -148,6 +149,14 @@ func genHistory(rt *rapid.T) *History {
 		case 0:
 			if rx.Chance(rt, "sameversion", 1, 4) {
 				h.Ops = append(h.Ops, Op{Op: "load", K: k}) // identical source
+			} else if rx.Chance(rt, "afterfailed", 1, 4) {
+				// a version that fails while it initialises, then a good one (the same version without the failing line, or the next)
+				k++
+				bad := k
+				if rapid.Bool().Draw(rt, "nextgood") {
+					k++
+				}
+				h.Ops = append(h.Ops, Op{Op: "load", K: k, Bad: bad})
 			} else {
 				k++
 				h.Ops = append(h.Ops, Op{Op: "load", K: k})
@@ -273,6 +282,17 @@ func check(h *History) (f *ev.Failure) {
 		}
 		switch op.Op {
 		case "load":
+			if op.Bad > 0 {
+				files := h.files(op.Bad)
+				files["app/app.go"] += fmt.Sprintf("\nfunc failInit(d int) int {\n\tfmt.Println(\"about to fail\", \"only-in-the-failing-version-%d\")\n\treturn 1 / d\n}\n\nvar failedInit = failInit(0)\n", op.Bad)
+				br := vm.Load(goat.FS(files), "app", goat.DefaultBudget)
+				if br.Panic != nil || br.Err == nil || !strings.Contains(br.Err.Error(), "divide by zero") {
+					return fail(i, "the version whose last initialiser divides by zero should fail with that error, got: "+br.ErrString())
+				}
+				vm.Out.Reset()
+				nontrivial = true
+				ev.R().Class("good_load_after_a_load_that_failed_in_an_initialiser")
+			}
 			r = vm.Load(goat.FS(h.files(op.K)), "app", goat.DefaultBudget)
 			m.k = op.K
 			m.initd = 10 // variables with an initialiser are re-initialised, the others keep their values
